@@ -50,6 +50,58 @@ CLAIMS = {
             "is the copy after all rules. The model is purely functional: that the caller's document is untouched is checked on the "
             "implementation (C08). Differential run over castable/uncastable strings under keys of every type.",
             "DESIGN.md section 7 C15"),
+    "C08": ("9 theorems (ValidaProofs/C08.lean): documents as a store of cells – validation works on a deep copy (read from the source) "
+            "whose cells are all fresh, a write through the copy's root only rewrites cells reachable from it, hence for every sequence of "
+            "cast write-backs the caller's cells are untouched; conditions as objects – no construction during any history of calls writes "
+            "an existing condition (C02); repeatability by purity of the model. PARTIAL: thread schedules are covered only by the read-only "
+            "argument, the interpreter is not modelled. Identity-aware snapshots of documents, rules, paths, parts and conditions after every "
+            "call of generated histories on the implementation.", "DESIGN.md section 7 C08"),
+    "C09": ("12 theorems (ValidaProofs/C09.lean): the constructor tables generated from GeneralCallables / MapCallables bind correctly "
+            "against the signatures generated from callables.py (what not_in_range violated), alias and type-name tables, null spec, and/or/xor "
+            "fold, case-insensitivity of the key, representative spec = DSL rows per signature branch. Every (class, constructor) pair and "
+            "spelling is exercised differentially (parser model vs implementation, constructor table vs DSL objects).",
+            "DESIGN.md section 7 C09"),
+    "C10": ("11 theorems (ValidaProofs/C10.lean): bare parts, long form = dotted shorthand, key/index equality specs equal the API parts, "
+            "primitive part specs = DataPath(*prims), mapping parts make the path non-concrete, suffix tokens = modifier methods in both orders "
+            "with aliases, path strings, rule fields and casts, doc normalisation. YAML text is loaded by ruamel (a parameter) and fed to the "
+            "same parser in the differential run.", "DESIGN.md section 7 C10"),
+    "C11": ("10 theorems (ValidaProofs/C11.lean): serialiser branch (callable signature) and parser branch (constructor signature) agree for "
+            "every constructor, single parameters are stored by keyword, type names invert, every emitted key parses back to the same class "
+            "and callable, null / combination / scalar-leaf / representative-row round trips. Known findings D10 (DataPath argument emitted "
+            "as an object) and D11 (path-like literal mapping not escaped) are listed, not repaired.", "DESIGN.md section 7 C11"),
+    "C12": ("6 theorems (ValidaProofs/C12.lean): to_part_specs refuses modifiers / bound data, whatever it emits describes part by part an "
+            "equal part (plain key / index rebuilt to exactly that part, or a bare part spec), refusal examples, round trip through "
+            "from_part_specs with pairwise-equal parts, plain-key paths always serialise.", "DESIGN.md section 7 C12"),
+    "C13": ("6 theorems (ValidaProofs/C13.lean): cast tables invert, shape of a serialised rule, cast round trip for both declared casts, "
+            "rule round trip from the condition and path round trips, re-sorting a sorted rule list is the identity.",
+            "DESIGN.md section 7 C13"),
+    "C14": ("13 theorems (ValidaProofs/C14.lean): condition / part / path / rule equality is reflexive, symmetric and transitive wherever "
+            "Python == is an equivalence on the stored values (proved for hashable values) and keyword names are distinct (as in every real "
+            "object; counterexamples without that hypothesis are kernel-checked), commuted operands compare equal and filter identically, "
+            "sensitivity to class / callable / operator / kind / list and map conditions. Known finding D16 (numerically equal arguments of "
+            "different type compare equal but behave differently) is listed.", "DESIGN.md section 7 C14"),
+    "C16": ("6 theorems (ValidaProofs/C16.lean): the five places that rewrote the caller's structure work on copies (flags derived from the "
+            "source by the translator), un-escaping and pop are functional, a re-parse gives an equal object, the outcome of a successful "
+            "parse does not depend on fuel. The no-mutation half is decided on the implementation by type-exact identity-aware snapshots.",
+            "DESIGN.md section 7 C16"),
+    "C17": ("8 theorems (ValidaProofs/C17.lean): resolution of path arguments against the source document, substituting the selected values "
+            "gives the same resolved condition and rule test in every leaf at any depth, absent paths resolve to None / [], a resolution error "
+            "fails the item (except-tuple generated from the source), escaped keys are literal, un-escaped ones are paths. Known finding D18 "
+            "(paths nested inside list / mapping arguments are never resolved) is listed. The harness's expected values come from an "
+            "independent reference walk.", "DESIGN.md section 7 C17"),
+    "C18": ("9 theorems (ValidaProofs/C18.lean): add_schema builds new rules (read from the source), the extended rule list is the stable "
+            "sort of S plus the re-rooted rules, additions are independent, walking a concatenated path = walking the root then the rest "
+            "with prefixed concrete paths, cast-free judgement counts add up.", "DESIGN.md section 7 C18"),
+    "C19": ("16 theorems (ValidaProofs/C19.lean): for EVERY structure handed to the condition / path / part-list / part / rule parsers the "
+            "outcome is acceptance or one of the allowed spec errors (mutual induction on fuel over the five parsers; guards read from the "
+            "source), KeyError only for a missing path / condition, plus ten families of definite errors rejected.",
+            "DESIGN.md section 7 C19"),
+    "C20": ("15 theorems (ValidaProofs/C20.lean): parents precede and are path prefixes, totality for prefix-closed keys, each rule's node "
+            "carries it, keys unique, a key named by an always-applicable required_keys is flagged required whatever else names it, conditions "
+            "under or / xor flag nothing, flat and nested forms have the same nodes; HTML: html.escape leaves no < > quote, the back-tick "
+            "scanner emits balanced code tags, every rendering is well-formed (Dyck) and schema text only occurs in escaped tokens. The tree "
+            "and the exact HTML string are compared with the implementation; type texts and str() of parts are inputs.",
+            "DESIGN.md section 7 C20"),
 }
 
 
